@@ -36,11 +36,13 @@ struct DSpec {
     uint8_t v[128];
   };
   uint32_t cap = 0; // 0 = growing
+  bool failures_free = false; // weak executions (C03): only hand-out order and exactly-once are guaranteed
   uint64_t hash(const State& s) const {
     uint64_t h = s.n;
     for (int i = 0; i < s.n; ++i) h = vh::hmix(h, s.v[i]);
     return h;
   }
+  bool equal(const State& a, const State& b) const { return a.n == b.n && memcmp(a.v, b.v, a.n) == 0; }
   int alternatives(const Op&) const { return 1; }
   bool apply(State& s, const Op& o, int = 0) const {
     switch (o.kind) {
@@ -50,14 +52,14 @@ struct DSpec {
         s.v[s.n++] = (uint8_t)o.id;
         return true;
       }
-      return cap && s.n >= cap; // only a fixed-size container at capacity rejects
+      return failures_free || (cap && s.n >= cap); // only a fixed-size container at capacity rejects
     case D_POP:
       if (o.ok) {
         if (s.n == 0 || s.v[s.n - 1] != o.id) return false;
         s.n--;
         return true;
       }
-      return s.n == 0;
+      return failures_free || s.n == 0;
     case D_STEAL:
       if (o.ok) {
         if (s.n == 0 || s.v[0] != o.id) return false;
@@ -65,7 +67,7 @@ struct DSpec {
         s.n--;
         return true;
       }
-      return s.n == 0 || o.overlapped_removal; // try_steal may fail when it loses a race
+      return failures_free || s.n == 0 || o.overlapped_removal; // try_steal may fail when it loses a race
     default: return true;
     }
   }
@@ -194,6 +196,7 @@ struct DHarness {
       for (auto& o : hist[t]) all.push_back(o);
     DSpec spec;
     spec.cap = GROW ? 0 : CAP;
+    spec.failures_free = vrt::weak_mode();
     lin::Checker<DSpec> pre(spec, all);
     bool steal_overlapped_grow_or_last = false, overlap = false;
     for (size_t i = 0; i < all.size(); ++i)
